@@ -729,6 +729,72 @@ Proof.
     rewrite (po_antisym _ _ order_by_preorder b a), L in H by assumption. simpl in H. congruence.
 Qed.
 
+(* the same for any key, when the earlier keys tie: later criteria break ties *)
+Lemma cmp_bindings_key ob descs : forall r1 r2 k,
+  cmp_bindings_with ob descs r1 r2 <> Gt ->
+  length r1 = length descs -> length r2 = length descs -> (k < length descs)%nat ->
+  (forall m, (m < k)%nat -> key_cmp ob (nth m r1 None) (nth m r2 None) = Eq) ->
+  dir (nth k descs false) (key_cmp ob (nth k r1 None) (nth k r2 None)) <> Gt.
+Proof.
+  induction descs as [|d ds IH]; intros r1 r2 k H L1 L2 Hk Hm; simpl in Hk; [lia|].
+  destruct r1 as [|k1 t1]; [discriminate|]. destruct r2 as [|k2 t2]; [discriminate|].
+  simpl in L1, L2. cbn [cmp_bindings_with] in H. destruct k as [|k]; cbn [nth].
+  - apply then_cmp_not_Gt in H. exact H.
+  - assert (E : key_cmp ob k1 k2 = Eq) by (apply (Hm 0%nat); lia).
+    rewrite E in H. replace (dir d Eq) with Eq in H by (destruct d; reflexivity). cbn [then_cmp] in H.
+    apply IH; auto; try lia. intros m Hlt. apply (Hm (S m)). lia.
+Qed.
+
+Theorem sorted_output_key_order descs rows out :
+  Forall (row_ok descs) rows -> Permutation rows out -> Sorted (rows_le descs) out ->
+  forall i j k, (i < j < length out)%nat -> (k < length descs)%nat ->
+    (forall m, (m < k)%nat ->
+       key_cmp order_by (nth m (nth i out []) None) (nth m (nth j out []) None) = Eq) ->
+    dir (nth k descs false)
+        (key_cmp order_by (nth k (nth i out []) None) (nth k (nth j out []) None)) <> Gt.
+Proof.
+  intros F Pm S i j k Hij Hk Hm.
+  pose proof (sorted_output_has_no_inversion descs rows out F Pm S i j Hij) as H.
+  assert (F' : Forall (row_ok descs) out) by (eapply Permutation_Forall; eauto).
+  rewrite Forall_forall in F'.
+  destruct (F' (nth i out [])) as [Li _]; [apply nth_In; lia|].
+  destruct (F' (nth j out [])) as [Lj _]; [apply nth_In; lia|].
+  apply (cmp_bindings_key order_by descs); auto.
+Qed.
+
+Theorem sorted_output_respects_lt_at_key c64 c32 f64 f32 descs rows out :
+  conv_ok c64 f64 -> conv_ok c32 f32 ->
+  Forall (row_ok descs) rows ->
+  Forall (Forall (fun k => match k with Some a => item_fmt f64 f32 a | None => True end)) rows ->
+  Permutation rows out -> Sorted (rows_le descs) out ->
+  forall i j k a b, (i < j < length out)%nat -> (k < length descs)%nat ->
+    (forall m, (m < k)%nat ->
+       key_cmp order_by (nth m (nth i out []) None) (nth m (nth j out []) None) = Eq) ->
+    nth k (nth i out []) None = Some a -> nth k (nth j out []) None = Some b ->
+    (if nth k descs false then lt_sparql c64 c32 a b else lt_sparql c64 c32 b a) <> Some true.
+Proof.
+  intros H64 H32 F Ff Pm S i j k a b Hij Hk Hm Ea Eb.
+  pose proof (sorted_output_key_order descs rows out F Pm S i j k Hij Hk Hm) as H.
+  rewrite Ea, Eb in H. cbn [key_cmp] in H.
+  assert (F' : Forall (row_ok descs) out) by (eapply Permutation_Forall; eauto).
+  assert (Ff' : Forall (Forall (fun k => match k with Some a => item_fmt f64 f32 a | None => True end)) out)
+    by (eapply Permutation_Forall; eauto).
+  rewrite Forall_forall in F', Ff'.
+  assert (Ii : In (nth i out []) out) by (apply nth_In; lia).
+  assert (Ij : In (nth j out []) out) by (apply nth_In; lia).
+  destruct (F' _ Ii) as [Li Fi]. destruct (F' _ Ij) as [Lj Fj].
+  pose proof (Ff' _ Ii) as Gi. pose proof (Ff' _ Ij) as Gj.
+  rewrite Forall_forall in Fi, Fj, Gi, Gj.
+  assert (Ia : In (Some a) (nth i out [])) by (rewrite <- Ea; apply nth_In; lia).
+  assert (Ib : In (Some b) (nth j out [])) by (rewrite <- Eb; apply nth_In; lia).
+  pose proof (Fi _ Ia) as Oa. pose proof (Fj _ Ib) as Ob. simpl in Oa, Ob.
+  pose proof (Gi _ Ia) as Ga. pose proof (Gj _ Ib) as Gb. simpl in Ga, Gb.
+  destruct (nth k descs false); simpl in H; intros L.
+  - apply (order_by_respects_lt c64 c32 f64 f32 a b) in L; auto. rewrite L in H. simpl in H. congruence.
+  - apply (order_by_respects_lt c64 c32 f64 f32 b a) in L; auto.
+    rewrite (po_antisym _ _ order_by_preorder b a), L in H by assumption. simpl in H. congruence.
+Qed.
+
 (* ================= the comparator of the original tree is not a preorder ================= *)
 From Coq Require Ascii.
 From Coq Require Import String.
